@@ -32,3 +32,23 @@ PROPS["C17"] = dict(
     stubs=[], assumptions=["button nibbles are 4-bit (the only values press/release can produce)"],
     replay={"*": "playback"},
 )
+
+CTOR_STUBS = ["system::get_rom_buffer -> buffer of the requested size, arbitrary contents (mmap contract)",
+              "mem::create_buffer -> zeroed buffer of the requested size without the push loop",
+              "LCD::new -> same value without the 23 040-iteration push loop"]
+
+PROPS["C11"] = dict(
+    level="model_checking",
+    groups=lambda tier, seed, ctx: [Group("c11", ["verif_c11"], jobs=12, harness_timeout=900, mem_gb=16)],
+    functions=["mem::{memory_read_byte,memory_write_byte,memory_read_word,memory_write_word}", "mem::MemoryAreas::with_rom_file",
+               "cart::Header::{get_rom_size_bytes,get_rom_bank_count,get_ram_size_bytes,create_cart_state}",
+               "cart::{NullCartState,MBC1CartState,MBC3CartState}::{write_rom,get_rom_bank,get_ram_bank}", "devices::io::IO::{set_byte,get_byte}"],
+    bounds={"quick": "every supported cartridge type x all 256 ROM-size codes x all 256 RAM-size codes (buffers sized by the real header tables) x "
+                     "banking registers set by one guest write of an arbitrary value into each of the four controller register windows (= every register state) x "
+                     "all 65536 addresses x {byte read, byte write, word read, word write} x all values; Kani's panic / bounds / overflow checks are the assertion",
+            "thorough": "same"},
+    outside=["cartridge types the loader rejects (panic at load = controlled termination, C19)", "allocation failure"],
+    stubs=CTOR_STUBS + ["Stdout::write/flush -> recorder (serial port output is C18's subject)"],
+    assumptions=["device state (timer, LCD, joypad) is the power-on state: no bus access path indexes memory with it"],
+    replay={"*": "playback"},
+)
